@@ -46,6 +46,9 @@ func c07Receivers() []recvKind {
 		{"struct-unexported", tvUnexp("A", tvInt("int", "1"), tvInt("int", "2"))},
 		{"struct-unexported-zero", tvUnexp("A", tvInt("int", "0"), tvInt("int", "0"))},
 		{"struct-only-unexported", tvUnexp("only", tvInt("int", "0"))},
+		{"struct-unexported-first", tvUnexp("F", tvInt("int", "1"), tvInt("int", "2"), tvStr("v"))},
+		{"struct-local-type-1", tvUnexp("R1", tvStr("v"), tvInt("int", "1"))},
+		{"struct-local-type-2", tvUnexp("R2", tvInt("int", "1"), tvInt("int", "2"), tvStr("w"))},
 		{"nil-pointer", tvNilPtr(tvInt("int", "0"))},
 		{"pointer", tvPtr(tvInt("int", "5"))},
 		{"func", &TV{T: "func"}},
@@ -71,7 +74,7 @@ func init() {
 }
 
 func genC07(c *Ctx) {
-	c.Rule = "exhaustive: every function of ListFunctions() x 24 receiver kinds x argument tuples (all of length 0..2 in quick, 0..3 in thorough, over 10 argument kinds (incl. a string that is not a valid regular expression)), receiver under a key and at the root; then random composite queries on random data. distinct = distinct (query skeleton, data shape to depth 2, outcome class); non-trivial = outcome class is not the most common one"
+	c.Rule = "exhaustive: every function of ListFunctions() x 30 receiver kinds x argument tuples (all of length 0..2 in quick, 0..3 in thorough, over 10 argument kinds (incl. a string that is not a valid regular expression)), receiver under a key and at the root; then random composite queries on random data. distinct = distinct (query skeleton, data shape to depth 2, outcome class); non-trivial = outcome class is not the most common one"
 	names := funcNames()
 	recvs := c07Receivers()
 	var tuples [][]string
@@ -118,6 +121,27 @@ func genC07(c *Ctx) {
 		`$.l.Select("")`, `$.l.Select($.e)`, "$.u.k", "$.u.K", "$.AsArray().Select($.q)", "$.e.Left(-1)", "$.e.Right(-1)", "$.e.TrimLeft(-1)", "$.e.TrimRight(-1)",
 		"$.l.First().Divide(0)", "$.l.First().Modulo(0)", "$.n.IsEmpty()", "$.n.IsNotEmpty()", "$.u.IsEmpty()", "$.u.IsNullOrEmpty()", "$", "@", "$.l[@.Greater(1)]", "$.l[@]", "$.l[@.Add(1)]"} {
 		c.DoIsolated(Case{Q: q, D: obj, Cls: "named-by-property", InDomain: true})
+	}
+	// struct types whose layout is not the list of their exported fields, and two types that print alike, asked in turns
+	lay := tvMap("str", [][2]any{{hx("f"), tvUnexp("F", tvInt("int", "9"), tvInt("int", "3"), tvStr("kf"))},
+		{hx("one"), tvUnexp("R1", tvStr("first"), tvInt("int", "1"))}, {hx("two"), tvUnexp("R2", tvInt("int", "7"), tvInt("int", "8"), tvStr("second"))},
+		{hx("mix"), tvSlice(1, tvUnexp("R2", tvInt("int", "70"), tvInt("int", "80"), tvStr("m2")), tvUnexp("R1", tvStr("m1"), tvInt("int", "11")))}})
+	for round := 0; round < 2; round++ {
+		for _, q := range []string{"$.f.a", "$.f.k", "$.f.hidden", "$.two.k", "$.one.k", "$.two.k", "$.one.a", "$.two.pad", "$.two.a", "$.one.pad", "$.mix.k", "$.mix.a", "$.mix.pad",
+			"$.mix[@.k.Equal(\"m1\")]", "$.mix.First().k", "$.mix.Last().k", "$.one.IsEmpty()", "$.two.IsEmpty()", "$.f.IsNullOrEmpty()", "$.f.AsJSON()", "$.two.AsJSON()"} {
+			c.Do(Case{Q: q, D: lay, Cls: "named-by-property/struct-layouts", InDomain: true})
+		}
+	}
+	// conditions whose value is a boolean in another Go carrier (named bool, pointer to bool, bool behind `any`): a body of one condition, of several, and groups
+	be := func(id string, a, o bool) *TV {
+		return tvStruct([][3]any{{"Id", 1, tvInt("int", id)}, {"Active", 1, tvNBool(a)}, {"On", 1, tvPtr(tvBool(o))}, {"Any", 2, tvNBool(a)}, {"Off", 1, tvNilPtr(tvBool(false))}})
+	}
+	bools := tvMap("str", [][2]any{{hx("xs"), tvSlice(1, be("1", true, false), be("2", false, true), be("3", true, true))}, {hx("nb"), tvNBool(true)}, {hx("pb"), tvPtr(tvBool(true))},
+		{hx("ms"), tvSlice(1, tvMap("str", [][2]any{{hx("active"), tvNBool(true)}, {hx("on"), tvPtr(tvBool(false))}}), tvMap("str", [][2]any{{hx("active"), tvNBool(false)}, {hx("on"), tvPtr(tvBool(true))}}))}})
+	for _, q := range []string{"$.xs[@.active]", "$.xs[@.on]", "$.xs[@.any]", "$.xs[@.off]", "$.xs[OR,@.active]", "$.xs[AND,@.on]", "$.xs[{@.on}]", "$.xs[{OR,@.active}]", "$.xs[@.active,@.on]", "$.xs[OR,@.active,@.on]",
+		"$.xs[@.active][@.on]", "$.ms[@.active]", "$.ms[@.on]", "$.ms[OR,@.on]", "{$.nb}", "{OR,$.pb}", "{AND,$.nb}", "{$.nb,$.pb}", "{{$.nb}}", "$.xs.First()[@.active]", "$.xs.Last()[@.on]",
+		"$.xs.Any(@.active)", "$.xs.Any({@.on})", "$.nb.Equal({$.pb})", "$.xs[@.active.Not()]", "$.xs[@.on.Equal({@.on})]"} {
+		c.Do(Case{Q: q, D: bools, Cls: "named-by-property/boolean-carriers", InDomain: true})
 	}
 	nk := tvMap("str", [][2]any{{hx("m"), tvMap("iface", [][2]any{{"~nil", tvF64(1)}, {hx("a"), tvF64(2)}, {"~int:7", tvF64(3)}})}})
 	for _, q := range []string{"$.m.a", "$.m.A", "$.m.zz", "$.m.a?.b", `$.m.RemoveKeysByPrefix("a")`, `$.m.RemoveKeysBySuffix("")`, `$.m.RemoveKeysByRegex(".")`, "$.m.Sum()", `$.m.Select("$")`, "$.m[@.a.Equal(2)]", "$.m.IsEmpty()", "$.m.AsJSON()"} {
